@@ -222,6 +222,12 @@ func (lex *Lexer) inOpenString() bool {
 		(lex.state == LexerHexEscape && lex.hexReturn == LexerStrLit)
 }
 
+// afterTilde reports whether the input so far ends in a '~' of which the lexer
+// does not yet know whether it is '~' or '~@': its operand has not arrived.
+func (lex *Lexer) afterTilde() bool {
+	return lex.state == LexerUnquote
+}
+
 // flushAtEnd delivers the token that only the end of the input terminates.
 // The parser calls it at top level only (no bracket, string or comment
 // open), where the end of the input ends the text exactly as white space
